@@ -153,6 +153,76 @@ func (w *World) CG() *CallGraph {
 			}
 		}
 	}
+	// 3. a call of a function-typed parameter: when the function's value is never taken and every static call site
+	// passes a function literal, a named function or a bound method, the targets are exactly those
+	for _, f := range w.funcsMod {
+		if fvalSet[f] {
+			continue
+		}
+		for _, s := range cg.Sites[f] {
+			prm, ok := s.Common().Value.(*ssa.Parameter)
+			if !ok || s.Invoke || s.Static != nil || prm.Parent() != f {
+				continue
+			}
+			idx := -1
+			for i, q := range f.Params {
+				if q == prm {
+					idx = i
+				}
+			}
+			var exact []*ssa.Function
+			complete := idx >= 0 && len(cg.Callers[f]) > 0
+			for _, cs := range cg.Callers[f] {
+				if cs.Static != f || idx >= len(cs.Common().Args) {
+					complete = false
+					break
+				}
+				var t *ssa.Function
+				switch a := cs.Common().Args[idx].(type) {
+				case *ssa.MakeClosure:
+					t, _ = a.Fn.(*ssa.Function)
+				case *ssa.Function:
+					t = a
+				}
+				if t == nil {
+					complete = false
+					break
+				}
+				if t.Synthetic != "" && t.Object() != nil {
+					if fo, ok := t.Object().(*types.Func); ok {
+						if real := w.Prog.FuncValue(fo); real != nil && real.Blocks != nil && cg.isModuleFunc(real) {
+							t = real
+						}
+					}
+				}
+				exact = append(exact, t)
+			}
+			if !complete {
+				continue
+			}
+			// replace the signature-based candidates
+			for _, old := range s.Callees {
+				cs := cg.Callers[old]
+				for i := 0; i < len(cs); i++ {
+					if cs[i] == s {
+						cs = append(cs[:i], cs[i+1:]...)
+						i--
+					}
+				}
+				cg.Callers[old] = cs
+			}
+			s.Callees = nil
+			seen := map[*ssa.Function]bool{}
+			for _, t := range exact {
+				if seen[t] || !(cg.isModuleFunc(t) && t.Blocks != nil) {
+					continue
+				}
+				seen[t] = true
+				s.Callees = append(s.Callees, t)
+				cg.Callers[t] = append(cg.Callers[t], s)
+			}
+		}
+	}
 	return cg
 }
 
@@ -209,7 +279,16 @@ func (cg *CallGraph) makeSite(f *ssa.Function, ci ssa.CallInstruction) *Site {
 	}
 	for _, fn := range cg.fvals {
 		if types.Identical(fn.Signature, sig) || sameParamsResults(fn.Signature, sig) {
-			s.Callees = append(s.Callees, fn)
+			// a bound method value (k.SetX handed on as a function): the declared method is what runs
+			target := fn
+			if fn.Synthetic != "" && fn.Object() != nil {
+				if fo, ok := fn.Object().(*types.Func); ok {
+					if real := cg.w.Prog.FuncValue(fo); real != nil && real != fn && real.Blocks != nil && cg.isModuleFunc(real) {
+						target = real
+					}
+				}
+			}
+			s.Callees = append(s.Callees, target)
 		}
 	}
 	s.Method = "<func value>"
